@@ -129,6 +129,17 @@ def progress_blocks(prog, fn, cfg, scc):
                 if none_t not in scc:
                     out.add(bi)
             continue
+        if name in prog.bodies and not must_progress(prog, name) and (root not in hard_assigned or root <= mir['argc']):
+            # a repository helper / closure that consumes conditionally (`while let Some(x) = next_subtag_if(iter, parse)`, the closure of a
+            # `from_fn`): progress for the cycle if the cycle is left on None and the callee returns Some only after taking an element
+            d = t['dest']['l']
+            nb = mir['blocks'][t['t']] if t.get('t') is not None and t['t'] >= 0 else None
+            if nb is not None and nb['term']['k'] == 'switch' and any(s_['k'] == 'assign' and s_['rv']['k'] == 'discr' and s_['rv']['p']['l'] == d for s_ in nb['stmts']):
+                tm = dict((int(x), b_) for x, b_ in nb['term']['t'])
+                none_t = tm.get(0, nb['term']['else'])
+                if none_t not in scc and some_implies_progress(prog, name):
+                    out.add(bi)
+                    continue
         if PROGRESS_RE.search(name):
             aty = ((t['args'][0].get('move') or t['args'][0].get('copy') or {}).get('ty') or '') + ' ' + name + ' ' + t.get('ga', '')
             if INFINITE_RE.search(aty):
@@ -166,6 +177,40 @@ def iterator_root(mir, arg):
             continue
         break
     return l
+
+
+_sip = {}
+
+
+def some_implies_progress(prog, fn):
+    """does `fn` (loop-free, returning an Option) return Some only on paths that took an element from an iterator it received (parameter or
+    captured reference)?  Decided on the explored paths of the callee, helpers inlined."""
+    if fn in _sip:
+        return _sip[fn]
+    _sip[fn] = False
+    try:
+        if prog.has_loops(fn) or 'option::Option<' not in str((prog.bodies[fn].get('sig') or {}).get('output', '') or prog.bodies[fn]['mir']['locals'][0]):
+            return False
+        e = pxm.PX(prog)
+        segs = e.explore(fn)
+    except Exception:
+        return False
+    ok = bool(segs)
+    for sg in segs:
+        if sg.kind == 'panic':
+            continue
+        if sg.kind != 'return':
+            ok = False
+            break
+        r = sg.ret
+        if r is not None and r[0] == 'adt' and r[2] == 'None' and 'option::Option' in r[1]:
+            continue
+        took = [ev for ev in sg.events if ev[0] == 'next' and "'param'" in repr(ev[1])]
+        if not took:
+            ok = False
+            break
+    _sip[fn] = ok
+    return ok
 
 
 _mp = {}
